@@ -7,7 +7,7 @@ KEY_RECLOSE = "unzip/poll_close-after-close-completed"
 class C14(vlib.Spec):
     model_vo = ["theories/Push/SinkRun.vo"]
     props_vo = "theories/Props/C14.vo"
-    theorems = ["C14_lazy_init_once_partial", "C14_unzip_strict_refuted"]
+    theorems = ["C14_filter_map", "C14_map", "C14_filter", "C14_lazy_init_once_partial", "C14_unzip_strict_refuted"]
     level = "other"
     crate, group, binary = "h_push", "light", "h_push"
     shrink_rounds = 20
